@@ -93,8 +93,12 @@ package floats
 //@ panics iff !valid, before-writes
 //@ writes nothing
 
-//@ func Norm Prod Sum SumCompensated props: C07(safety) C08
+//@ func Norm Prod SumCompensated props: C07(safety) C08
 //@ writes nothing
+
+//@ func Sum props: C07(safety) C08
+//@ writes nothing
+//@ ensures [real] forall(k, 0, len(s), s[k] >= 0) ==> result >= 0
 
 // ---- index and search helpers -------------------------------------------------
 
